@@ -8,6 +8,7 @@ import (
 	"fmt"
 	"math/rand/v2"
 	"os"
+	"runtime"
 	"strings"
 	"sync"
 	"sync/atomic"
@@ -208,6 +209,14 @@ type l2msg struct {
 	pattern string
 }
 
+// a delivery that may have to wait for its predecessor (asked ahead, kept back): it runs beside the
+// protocol rounds and is released by cancellation a few rounds later
+type l2call struct {
+	cancel context.CancelFunc
+	done   chan struct{}
+	age    int
+}
+
 // network drives one replica until told to stop.
 func (s *l2run) network(ri int, wg *sync.WaitGroup, done *atomic.Bool) {
 	defer wg.Done()
@@ -216,8 +225,31 @@ func (s *l2run) network(ri int, wg *sync.WaitGroup, done *atomic.Bool) {
 	var staleState *schema.ReplicaState
 	var held []l2msg // messages kept back to be delivered later (reordering / duplication)
 	idle := 0
-	deliver := func(m l2msg) {
-		if m.mayID > 0 && r.IntN(8) != 0 {
+	var async []*l2call
+	reap := func(all bool) {
+		keep := async[:0]
+		for _, pc := range async {
+			pc.age++
+			if all || pc.age > 2 {
+				pc.cancel()
+				<-pc.done
+			} else {
+				keep = append(keep, pc)
+			}
+		}
+		async = keep
+	}
+	defer reap(true)
+	var deliver func(ctx context.Context, m l2msg)
+	launch := func(m l2msg) {
+		ctx, cancel := context.WithTimeout(context.Background(), opTimeout)
+		pc := &l2call{cancel: cancel, done: make(chan struct{})}
+		async = append(async, pc)
+		m.mayID = 0 // allowances are delivered by the protocol rounds only
+		go func() { defer close(pc.done); deliver(ctx, m) }()
+	}
+	deliver = func(ctx context.Context, m l2msg) {
+		if m.mayID > 0 {
 			st, _ := rp.db.CurrentState()
 			if st != nil && m.mayID > st.TxId {
 				err := rp.db.AllowCommitUpto(m.mayID, m.mayAlh)
@@ -231,11 +263,9 @@ func (s *l2run) network(ri int, wg *sync.WaitGroup, done *atomic.Bool) {
 			}
 		}
 		if m.hasTx {
-			ctx, cancel := context.WithTimeout(context.Background(), opTimeout)
 			var hdr *schema.TxHeader
 			var err error
 			p, sig, text := fw.Guard(func() { hdr, err = rp.db.ReplicateTx(ctx, m.bs, s.cf.Skip, false) })
-			cancel()
 			s.c.Eval(1)
 			cls := "ok"
 			switch {
@@ -268,7 +298,8 @@ func (s *l2run) network(ri int, wg *sync.WaitGroup, done *atomic.Bool) {
 		rp.mu.Lock()
 		act := r.IntN(100)
 		switch {
-		case act < 4: // restart
+		case act < 1: // restart
+			reap(true)
 			if err := rp.db.Close(); err != nil {
 				s.viol("replica/close-error", fmt.Sprintf("%s Close: %v", rp.uuid, err))
 			}
@@ -283,7 +314,7 @@ func (s *l2run) network(ri int, wg *sync.WaitGroup, done *atomic.Bool) {
 			held = nil
 			s.c.Distinct("L2/replica-restart")
 			s.count("restart")
-		case act < 10: // the replica is unreachable for a while
+		case act < 5: // the replica is unreachable for a while
 			rp.mu.Unlock()
 			time.Sleep(time.Duration(1+r.IntN(15)) * time.Millisecond)
 			rp.mu.Lock()
@@ -295,7 +326,7 @@ func (s *l2run) network(ri int, wg *sync.WaitGroup, done *atomic.Bool) {
 				held = append(held[:k], held[k+1:]...)
 			}
 			m.pattern = "late-or-duplicate"
-			deliver(m)
+			launch(m)
 		default: // one protocol round
 			st, err := rp.db.CurrentState()
 			if err != nil {
@@ -333,25 +364,30 @@ func (s *l2run) network(ri int, wg *sync.WaitGroup, done *atomic.Bool) {
 			} else if done.Load() {
 				idle++
 			}
-			switch r.IntN(10) {
-			case 0: // kept back, delivered later
-				held = append(held, m)
-			case 1: // delivered now and once more later
-				deliver(m)
-				held = append(held, m)
-			case 2: // delivered twice concurrently
-				var w2 sync.WaitGroup
-				w2.Add(1)
-				go func() { defer w2.Done(); deliver(l2msg{bs: m.bs, hasTx: m.hasTx, pattern: "duplicate"}) }()
-				deliver(m)
-				w2.Wait()
-			default:
-				deliver(m)
+			if r.IntN(8) == 0 {
+				m.mayID = 0 // the allowance got lost
 			}
+			dctx, dcancel := context.WithTimeout(context.Background(), opTimeout)
+			switch k := r.IntN(10); {
+			case pattern == "out-of-order":
+				launch(m) // may wait for its predecessor
+			case k == 0: // kept back, delivered later
+				held = append(held, m)
+			case k == 1: // delivered now and once more later
+				deliver(dctx, m)
+				held = append(held, m)
+			case k == 2: // delivered twice concurrently
+				launch(l2msg{bs: m.bs, hasTx: m.hasTx, pattern: "duplicate"})
+				deliver(dctx, m)
+			default:
+				deliver(dctx, m)
+			}
+			dcancel()
 			if len(held) > 6 {
 				held = held[1:]
 			}
 		}
+		reap(false)
 		s.notAhead(rp)
 		rp.mu.Unlock()
 	}
@@ -465,7 +501,7 @@ func (s *l2run) divergenceScenario() {
 		// step 2: the primary must notice from the replica's state
 		_, _, _, eerr := s.pri.ExportTxByID(ctx, &schema.ExportTxRequest{Tx: id + 1, AllowPreCommitted: true, ReplicaState: &schema.ReplicaState{UUID: rp.uuid, CommittedTxID: rcur.TxId, CommittedAlh: rcur.TxHash, PrecommittedTxID: rcur.PrecommittedTxId, PrecommittedAlh: rcur.PrecommittedTxHash}})
 		s.c.Eval(1)
-		if eerr == nil || !strings.Contains(eerr.Error(), "diverged") {
+		if rcur.PrecommittedTxId == id && (eerr == nil || !strings.Contains(eerr.Error(), "diverged")) {
 			s.viol("sync/primary-does-not-notice-diverged-replica", fmt.Sprintf("replica state precommitted %d/%x differs from the primary's %x, ExportTxByID answered %v", rcur.PrecommittedTxId, rcur.PrecommittedTxHash[:6], palh[:6], eerr))
 		}
 		s.c.Distinct("L2/diverged/detected-by-next-step")
@@ -612,6 +648,14 @@ func init() {
 			c.Inconclusive("bad case: " + err.Error())
 			return
 		}
+		if debug {
+			// development aid: dump all goroutines of a case that is still running after 40 s
+			go func() {
+				time.Sleep(40 * time.Second)
+				buf := make([]byte, 1<<24)
+				os.WriteFile("/var/tmp/c07-stacks.txt", buf[:runtime.Stack(buf, true)], 0o644)
+			}()
+		}
 		runL2(c, cf)
 	})
 }
@@ -628,6 +672,7 @@ func runL2All(c *fw.Ctx) {
 		b, _ := json.Marshal(cf)
 		cases = append(cases, b)
 	}
+	cases = devLimit(cases)
 	c.RunIsolated("c07-l2", cases, fw.CasesOpts{Workers: 10, CaseTimout: 10 * time.Minute})
 }
 
